@@ -465,8 +465,8 @@ func extOnceDo(fr *frame, args []value) value {
 	}
 	st.done = true
 	in.call(fr, 0, args[1], nil)
-	in.tick(in.cur)
 	st.vc = in.cur.vc.clone()
+	in.tick(in.cur)
 	return nil
 }
 
